@@ -156,6 +156,9 @@ def _build_aux(out, log):
             os.path.join(out, "asan", "src", "libparson-static.a"),
             os.path.join(out, "asan", "src", "rt", "libovni-static.a"),
             os.path.join(out, "asan", "src", "libcommon-static.a")]
+    shim = os.path.join(aux, "shortio.c")
+    if os.path.exists(shim):
+        _run(["gcc", "-std=gnu11", "-O1", "-w", "-shared", "-fPIC", shim, "-ldl", "-o", os.path.join(d, "shortio.so")], log=log)
     for name in ("heap_harness", "task_harness", "sort_harness"):
         src = os.path.join(aux, name + ".c")
         if not os.path.exists(src):
